@@ -68,7 +68,13 @@ fn h5{S}(x: T Tg, p: string) -> string {\n  let f = (y: T) -> p .. Tg.{M}(y)\n  
 fn h6{S}(x: T Tg, p: string) -> string {\n  let c: channel<string> = channel()\n  task {\n    c.write(p .. Tg.{M}(x))\n  }\n  c.read()\n}\n\
 fn h7{S}(x: T Tg, n: int) -> string {\n  let f = () -> {\n    if n > 0 {\n      Tg.{M}(x)\n    } else {\n      \"none\"\n    }\n  }\n  f()\n}\n\
 fn h8{S}(x: T Tg, p: string) -> string {\n  let f = (y: T) -> p .. Tg.{M}(y) .. p\n  let g = () -> f(x)\n  g()\n}\n\
-fn h9{S}(b: Bx<T Tg>, p: string) -> string {\n  let f = () -> p .. Tg.{M}(b.inner)\n  f()\n}\n";
+fn h9{S}(b: Bx<T Tg>, p: string) -> string {\n  let f = () -> p .. Tg.{M}(b.inner)\n  f()\n}\n\
+fn gv1{S}(x: T Tg) -> string {\n  let f = Tg.{M}\n  f(x)\n}\n\
+fn gv2{S}(x: T Tg) -> string { apply1(Tg.{M}, x) }\n\
+fn gv3{S}(x: T Tg) -> string {\n  let fs = [Tg.{M}]\n  fs[0](x)\n}\n";
+
+/// higher-order helpers for interface methods used as VALUES
+const APPLY: &str = "fn apply1(f: T -> U, x: T) -> U { f(x) }\nfn apply2(f: (T, T) -> U, a: T, b: T) -> U { f(a, b) }\n";
 
 /// implementations of the builtin interfaces for `Sc` (each prints a tag) and generic users of them
 const BUILTIN: &str = "type Sc = { v: int }\n\
@@ -141,6 +147,16 @@ fn builtin_cases(num: bool) -> Vec<BCase> {
         c("let r = Sc(1).clone()", &["Clone.Sc.clone"][..], "Clone", "clone", 0, false),
         c("let r = gclone(Sc(1))", &["Clone.Sc.clone"][..], "Clone", "clone", 0, true),
         c("let r = gclone([Sc(1), Sc(2)])", &["Clone.Sc.clone", "Clone.Sc.clone"][..], "Clone", "clone", 0, true),
+        // prelude interface methods as VALUES at the user type (its Ord implementation lists greater_than first)
+        c("let r = apply1(ToString.str, Sc(1))", &["ToString.Sc.str"][..], "ToString", "str", 0, false),
+        c("let r = apply2(Equal.equal, Sc(1), Sc(1))", &["Equal.Sc.equal"][..], "Equal", "equal", 0, false),
+        c("let r = apply2(Ord.less_than, Sc(1), Sc(2))", &["Ord.Sc.less_than"][..], "Ord", "less_than+less_than_or_equal+greater_than+greater_than_or_equal", 0, false),
+        c("let r = apply2(Ord.less_than_or_equal, Sc(1), Sc(2))", &["Ord.Sc.less_than_or_equal"][..], "Ord", "less_than+less_than_or_equal+greater_than+greater_than_or_equal", 1, false),
+        c("let r = apply2(Ord.greater_than, Sc(1), Sc(2))", &["Ord.Sc.greater_than"][..], "Ord", "less_than+less_than_or_equal+greater_than+greater_than_or_equal", 2, false),
+        c("let ofs = [Ord.greater_than_or_equal, Ord.less_than]\nlet r = ofs[1](Sc(1), Sc(2))", &["Ord.Sc.less_than"][..], "Ord", "less_than+less_than_or_equal+greater_than+greater_than_or_equal", 0, false),
+        c("let r = apply1(Clone.clone, Sc(1))", &["Clone.Sc.clone"][..], "Clone", "clone", 0, false),
+        c("let r = apply2(Num.subtract, Sc(6), Sc(1))", &["Num.Sc.subtract"][..], "Num", "add+subtract+multiply+divide+power", 1, false),
+        c("let nf = Num.power\nlet r = nf(Sc(2), Sc(3))", &["Num.Sc.power"][..], "Num", "add+subtract+multiply+divide+power", 4, false),
     ];
     all.into_iter().filter(|b| (b.iface == "Num") == num).collect()
 }
@@ -207,7 +223,10 @@ fn h3a(x: T Tg, p: string) -> string {\n  let f = () -> p .. Tg.alt(x)\n  f()\n}
 fn gstr(a: T ToString) -> string { ToString.str(a) }\n\
 fn geq(a: T Equal, b: T Equal) -> bool { a == b }\n\
 fn glt(a: T Ord, b: T Ord) -> bool { a < b }\n\
-fn ggt(a: T Ord, b: T Ord) -> bool { a > b }\n";
+fn ggt(a: T Ord, b: T Ord) -> bool { a > b }\n\
+fn apply1(f: T -> U, x: T) -> U { f(x) }\n\
+fn gvt(x: T Tg) -> string { apply1(Tg.tag, x) }\n\
+fn gva(x: T Tg) -> string {\n  let f = Tg.alt\n  f(x)\n}\n";
     let impls = |k: usize, ty: &str, key: &str, swap: bool| -> String {
         let (m1, m2) = if swap { ("alt", "tag") } else { ("tag", "alt") };
         format!(
@@ -231,7 +250,11 @@ implement Ord for {ty} {{\n  fn less_than(a, b) {{\n    println(\"{k}.less_than\
     let vals: [(&str, [&str; 2], [&str; 2]); 2] =
         [("Item", ["Item(\"a\", 1)", "iv.Item(3)"], ["N40[]", "N41[]"]), ("Kind", ["Kind.Kx(2)", "iv.Kind.Ka"], ["N42[]", "N43[]"])];
     // (function, model signature, call type, interface methods, method index, is binary)
-    let fns: [(&str, &str, &str, &str, &str, usize, bool); 9] = [
+    let fns: [(&str, &str, &str, &str, &str, usize, bool); 13] = [
+        ("gvt", "F[p1>s]", "F[p0>s]", "F[p1>s]", "tag+alt", 0, false),
+        ("gva", "F[p1>s]", "F[p0>s]", "F[p1>s]", "tag+alt", 1, false),
+        ("valt", "F[>v]", "F[p0>s]", "", "tag+alt", 0, false),
+        ("vala", "F[>v]", "F[p0>s]", "", "tag+alt", 1, false),
         ("g1t", "F[p1>s]", "F[p0>s]", "F[p1>s]", "tag+alt", 0, false),
         ("g1a", "F[p1>s]", "F[p0>s]", "F[p1>s]", "tag+alt", 1, false),
         ("h3t", "F[p1,s>s]", "F[p0>s]", "F[p1>s]", "tag+alt", 0, false),
@@ -255,6 +278,8 @@ implement Ord for {ty} {{\n  fn less_than(a, b) {{\n    println(\"{k}.less_than\
                 let m = methods.split('+').nth(midx).unwrap();
                 let (expr, sig_s, inst, callty_s) = if f == "dot" {
                     (format!("Tg.tag({v})"), "F[>v]".to_string(), "F[>v]".to_string(), format!("F[{term}>s]"))
+                } else if f == "valt" || f == "vala" {
+                    (format!("apply1(Tg.{m}, {v})"), "F[>v]".to_string(), "F[>v]".to_string(), format!("F[{term}>s]"))
                 } else if f.starts_with("h3") {
                     (format!("{f}({v}, \"\")"), sig.to_string(), format!("F[{term},s>s]"), callty.to_string())
                 } else if binary {
@@ -263,7 +288,8 @@ implement Ord for {ty} {{\n  fn less_than(a, b) {{\n    println(\"{k}.less_than\
                     (format!("{f}({v})"), sig.to_string(), format!("F[{term}>s]"), callty.to_string())
                 };
                 let all = vec![methods; 2].join(";");
-                let req = format!("mono {sig_s} {inst} {msig} {callty_s} {};{} {methods} {all} {midx} #same-name-{f}:{tyname}", terms[0], terms[1]);
+                let opname = if f.starts_with("gv") || f.starts_with("val") { "monov" } else { "mono" };
+                let req = format!("{opname} {sig_s} {inst} {msig} {callty_s} {};{} {methods} {all} {midx} #same-name-{f}:{tyname}", terms[0], terms[1]);
                 cases.push(Case {
                     req,
                     expr: format!("println(\"#{q}\")\nprintln({expr})\n"),
@@ -274,7 +300,7 @@ implement Ord for {ty} {{\n  fn less_than(a, b) {{\n    println(\"{k}.less_than\
                 });
                 idxs[step] = q;
             }
-            if f != "dot" {
+            if f != "dot" && f != "valt" && f != "vala" {
                 label_pairs.push((idxs[0], idxs[1], format!("monolabel {} {} #same-name-{f}:{tyname}", terms[0], terms[1])));
             }
         }
@@ -318,6 +344,7 @@ fn gen_prog(rng: &mut Rng, idx: usize) -> Prog {
         impl_orders.push(ord);
     }
     src.push_str(GENERICS);
+    src.push_str(APPLY);
     src.push_str(&CLOSURES.replace("{M}", "tag").replace("{S}", "t"));
     src.push_str(&CLOSURES.replace("{M}", "alt").replace("{S}", "a"));
     let impls_term: String = chosen.iter().map(|&ci| uni[ci].impl_term).collect::<Vec<_>>().join(";");
@@ -395,6 +422,42 @@ fn gen_prog(rng: &mut Rng, idx: usize) -> Prog {
                 expr: format!("println(\"#{q}\")\nprintln({expr})\n"),
                 expect: format!("impl={k} method={m}"),
                 what: format!("{form} call `{expr}` on {} (implementation {k} declares {:?})", c.name, impl_orders[k]),
+                prelude: false,
+                op_req: None,
+            });
+            q += 1;
+        }
+    }
+    // interface methods as first-class VALUES (let, higher-order argument, array element, tuple component,
+    // inside generic functions): the closure must run the method of that NAME of the type's implementation
+    let nval = 4 + rng.below(3) as usize;
+    for _ in 0..nval {
+        let form_no = rng.below(7) as usize;
+        let midx = rng.below(2) as usize;
+        let m = ["tag", "alt"][midx];
+        let sfx = ["t", "a"][midx];
+        let ninst = 2 + rng.below(2) as usize;
+        let start = rng.below(chosen.len() as u64) as usize;
+        for j in 0..ninst {
+            let k = (start + j) % chosen.len();
+            let c = &uni[chosen[k]];
+            let (term, val) = c.insts[rng.below(c.insts.len() as u64) as usize];
+            let (pre, expr, sig, inst, callty) = match form_no {
+                0 => (format!("let mv{q} = Tg.{m}\n"), format!("mv{q}({val})"), "F[>v]".to_string(), "F[>v]".to_string(), format!("F[{term}>s]")),
+                1 => (String::new(), format!("apply1(Tg.{m}, {val})"), "F[>v]".to_string(), "F[>v]".to_string(), format!("F[{term}>s]")),
+                2 => (format!("let ma{q} = [Tg.tag, Tg.alt]\n"), format!("ma{q}[{midx}]({val})"), "F[>v]".to_string(), "F[>v]".to_string(), format!("F[{term}>s]")),
+                3 => (format!("let (mt{q}, _) = (Tg.{m}, 1)\n"), format!("mt{q}({val})"), "F[>v]".to_string(), "F[>v]".to_string(), format!("F[{term}>s]")),
+                4 => (String::new(), format!("gv1{sfx}({val})"), "F[p1>s]".to_string(), format!("F[{term}>s]"), "F[p1>s]".to_string()),
+                5 => (String::new(), format!("gv2{sfx}({val})"), "F[p1>s]".to_string(), format!("F[{term}>s]"), "F[p1>s]".to_string()),
+                _ => (String::new(), format!("gv3{sfx}({val})"), "F[p1>s]".to_string(), format!("F[{term}>s]"), "F[p1>s]".to_string()),
+            };
+            let form = ["value-let", "value-higher-order", "value-in-array", "value-in-tuple", "value-generic-let", "value-generic-higher-order", "value-generic-array"][form_no];
+            let req = format!("monov {sig} {inst} F[p0>s] {callty} {impls_term} tag+alt {impl_methods} {midx} #{form}:{}", c.name);
+            cases.push(Case {
+                req,
+                expr: format!("{pre}println(\"#{q}\")\nprintln({expr})\n"),
+                expect: format!("impl={k} method={m}"),
+                what: format!("{form} `{pre}{expr}` on {} (implementation {k} declares {:?})", c.name, impl_orders[k]),
                 prelude: false,
                 op_req: None,
             });
